@@ -1331,10 +1331,9 @@ impl FileReaderBuilder {
         let mut custom_metadata = HashMap::new();
         if let Some(fb_custom_metadata) = footer.custom_metadata() {
             for kv in fb_custom_metadata {
-                custom_metadata.insert(
-                    kv.key().unwrap().to_string(),
-                    kv.value().unwrap().to_string(),
-                );
+                if let (Some(k), Some(v)) = (kv.key(), kv.value()) {
+                    custom_metadata.insert(k.to_string(), v.to_string());
+                }
             }
         }
 
